@@ -6,6 +6,7 @@
 package relay
 
 import (
+	"github.com/ethereum/go-ethereum/crypto"
 	upgradetypes "github.com/cosmos/cosmos-sdk/x/upgrade/types"
 	xibctypes "github.com/teleport-network/teleport/x/xibc/types"
 	"github.com/teleport-network/teleport/x/xibc"
@@ -87,17 +88,22 @@ type transfer struct {
 }
 
 // Sys is one live world plus the reference ledger.
+// emitter: LOG1 with topic = first calldata word and data = the rest (lets an ordinary contract emit a log that looks like
+// the packet contract's PacketSent).
+var emitterRuntime = common.FromHex("602036038060206000376000359060" + "00a100")
+
 type Sys struct {
 	cfg  Config
 	w    *world.World
 	tr   []*transfer
 	tok  map[string]common.Address // "A:erc20" origin token on A, "B:bound" bound token on B for A's erc20, "B:boundnative", ...
+	emit map[string]common.Address // per chain: the log-emitting helper contract
 	dead string
 }
 
 // New builds the initial world (setup is deterministic).
 func New(cfg Config) *Sys {
-	s := &Sys{cfg: cfg, w: world.NewWorld(), tok: map[string]common.Address{}}
+	s := &Sys{cfg: cfg, w: world.NewWorld(), tok: map[string]common.Address{}, emit: map[string]common.Address{}}
 	names := []string{A, B}
 	if cfg.Chains == 3 {
 		names = append(names, C)
@@ -146,6 +152,18 @@ func New(cfg Config) *Sys {
 			t := world.DeployERC20From(c, ctx, u1.Eth, "tok"+short[n])
 			s.tok[short[n]+":erc20"] = t
 			world.KeeperCall(c, ctx, erc20contracts.ERC20MinterBurnerDecimalsContract.ABI, u1.Eth, t, "mint", u1.Eth, s.rawCfg(10000))
+			// the log-emitting helper (deployed by "out")
+			{
+				out := c.Accounts["out"].Eth
+				rt := emitterRuntime
+				n := byte(len(rt))
+				init := append([]byte{0x60, n, 0x60, 0x0c, 0x60, 0x00, 0x39, 0x60, n, 0x60, 0x00, 0xf3}, rt...)
+				addr := crypto.CreateAddress(out, c.App.EvmKeeper.GetNonce(ctx, out))
+				if res, err := c.App.AggregateKeeper.CallEVMWithData(ctx, out, nil, init); err != nil || res.Failed() {
+					panic(fmt.Sprint("emitter deployment failed: ", err))
+				}
+				s.emit[n2s(c.Name)] = addr
+			}
 			world.KeeperCall(c, ctx, erc20contracts.ERC20MinterBurnerDecimalsContract.ABI, u1.Eth, t, "approve", endpointcontract.EndpointContractAddress, s.rawCfg(1000000))
 		})
 	}
@@ -213,6 +231,8 @@ func ghostAddr(on, of string) string { return world.NewAccount("ghost-" + on + "
 // tss reports whether chain `on` follows chain `of` through a TSS client (no proofs: the TSS account's signature is the proof).
 func (s *Sys) tss(on, of string) bool { return s.cfg.TSS && on == A && of == B }
 
+func n2s(name string) string { return short[name] }
+
 func must(err error) {
 	if err != nil {
 		panic(err)
@@ -220,7 +240,7 @@ func must(err error) {
 }
 
 func (s *Sys) Clone() bfs.System {
-	n := &Sys{cfg: s.cfg, w: s.w.Clone(), tok: s.tok, dead: s.dead}
+	n := &Sys{cfg: s.cfg, w: s.w.Clone(), tok: s.tok, emit: s.emit, dead: s.dead}
 	for _, t := range s.tr {
 		c := *t
 		n.tr = append(n.tr, &c)
@@ -266,7 +286,7 @@ func (s *Sys) Ops() []string {
 	}
 	for _, t := range s.tr {
 		for _, f := range s.cfg.AckForms {
-			if t.AckBytes == nil && (f == "g1" || f == "g2" || f == "dup2" || f == "old" || f == "altpkt") {
+			if t.AckBytes == nil && (f == "g1" || f == "g2" || f == "dup2" || f == "old" || f == "altpkt" || f == "altfee") {
 				continue // nothing to relay yet
 			}
 			out = append(out, fmt.Sprintf("ack %s %s", t.ID, f))
@@ -354,6 +374,19 @@ func (s *Sys) sendTx(src, dst *world.Chain, kind string, amount int64) (tx []byt
 	if base == "native" {
 		feeTok = common.Address{}
 	}
+	if base == "forgedlog" { // a user has an ordinary contract emit a log that is byte-identical to the packet contract's PacketSent for a well-formed next packet
+		td := packettypes.TransferData{Token: strings.ToLower(s.tok[short[src.Name]+":erc20"].String()), Amount: pad32(amount), Receiver: recv}
+		tdb, _ := td.ABIPack()
+		next := src.App.XIBCKeeper.PacketKeeper.GetNextSequenceSend(src.ReadCtx(), src.Name, dst.Name)
+		p := packettypes.Packet{SrcChain: src.Name, DstChain: dst.Name, Sequence: next, Sender: strings.ToLower(u1.Eth.String()), TransferData: tdb, CallbackAddress: common.Address{}.String()}
+		pbz, err := p.ABIPack()
+		must(err)
+		ev := packetcontract.PacketContract.ABI.Events["PacketSent"]
+		logData, err := ev.Inputs.Pack(pbz)
+		must(err)
+		em := s.emit[short[src.Name]]
+		return src.EthTx(u1, &em, nil, append(ev.ID.Bytes(), logData...)), 0
+	}
 	if base == "direct" { // a user calls packet.sendPacket itself with a well-formed next packet
 		td := packettypes.TransferData{Token: strings.ToLower(s.tok[short[src.Name]+":erc20"].String()), Amount: pad32(amount), Receiver: recv}
 		tdb, _ := td.ABIPack()
@@ -362,6 +395,9 @@ func (s *Sys) sendTx(src, dst *world.Chain, kind string, amount int64) (tx []byt
 		data, err := packetcontract.PacketContract.ABI.Pack("sendPacket", p, packettypes.Fee{TokenAddress: common.Address{}, Amount: big.NewInt(0)})
 		must(err)
 		return src.EthTx(u1, &packetcontract.PacketContractAddress, nil, data), 0
+	}
+	if base == "native" || base == "feeonly1" {
+		d.FeeOption = 2 // a non-zero fee option travels in the packet and in its acknowledgement and is part of what is committed
 	}
 	d.Amount = s.raw(d.TokenAddress, amount)
 	data := world.CrossChainCallData(d, packettypes.Fee{TokenAddress: feeTok, Amount: s.raw(feeTok, fee)})
@@ -546,6 +582,17 @@ func (s *Sys) stepSend(src, dst *world.Chain, kind string, amt, fee int64, tx []
 	s.globalMonitors(src, pre, post, nil, add, "send")
 	d := diffAll(pre, post)
 	class := "send " + kind
+	if kind == "forgedlog" {
+		// whatever becomes of the transaction, the look-alike log is nobody's send: no xibc record and no counter may change
+		for _, x := range d {
+			if strings.HasPrefix(x, host.StoreKey+":") {
+				add("C06", "look-alike-packetsent-log-processed-as-a-send", fmt.Sprintf("on %s a log emitted by an ordinary contract changed xibc state: %s", short[src.Name], x))
+				add("C04", "commitment-or-counter-changed-without-a-send", fmt.Sprintf("on %s a log emitted by an ordinary contract changed xibc state: %s", short[src.Name], x))
+			}
+		}
+		s.checkCounters(src, add, "after a look-alike log")
+		return "look-alike log", class + " ignored"
+	}
 	if !r.OK() {
 		class += " rejected"
 		if len(d) > 0 {
@@ -860,6 +907,11 @@ func (s *Sys) ackMsg(t *transfer, form string) (sdk.Msg, world.Account, *world.C
 	pkt := t.Bytes
 	if form == "altpkt" {
 		pkt = altered(p) // same triple, different body; genuine acknowledgement and proof
+	}
+	if form == "altfee" {
+		q := p
+		q.FeeOption++ // differs from the committed packet in the fee option only
+		pkt, _ = q.ABIPack()
 	}
 	return packettypes.NewMsgAcknowledgement(pkt, ack, proof, ph, signer.Acc), signer, src
 }
@@ -1336,12 +1388,15 @@ var ManySendsScript = func() []string {
 // native action fail after the EVM call itself succeeded, alone and next to an ordinary transfer.
 var HookScript = []string{"send A B erc20+hookfail 1", "send A B erc20 3", "upd B A", "upd B A", "recv A>B#1 g1", "recv A>B#2 g1", "upd A B", "upd A B", "ack A>B#1 g1", "ack A>B#2 g1"}
 
+// ForgedLogScript: between two real sends a user makes an ordinary contract emit a look-alike PacketSent log.
+var ForgedLogScript = []string{"send A B erc20 3", "send A B forgedlog 1", "send A B erc20 1", "send A C forgedlog 1"}
+
 // UpgradeScript: traffic, then the software upgrade on the sending chain.
 var UpgradeScript = []string{"send A B erc20 3", "send A B native 1", "send A C erc20 1", "upd B A", "upd B A", "recv A>B#1 g1", "upgrade A"}
 
 func ScriptedViolations(prop string) (steps int, out []ScriptViol) {
 	seen := map[string]bool{}
-	for _, script := range [][]string{RestartScript, ManySendsScript, HookScript, UpgradeScript} {
+	for _, script := range [][]string{RestartScript, ManySendsScript, HookScript, ForgedLogScript, UpgradeScript} {
 		s := New(Config{Chains: 3, MaxSends: 14, Prop: prop})
 		for i, op := range script {
 			_, _, vs := s.Apply(op)
